@@ -21,7 +21,7 @@ import ast
 
 from ..cfg import Flow
 from ..core import AnalysisError, RuleContext, need, norm, short
-from ..model import FuncInfo, walk_scope
+from ..model import walk_with_lambdas, dotted_of, FuncInfo, walk_scope
 from ..roles import node_calls, node_eval_asts, roles_for
 from ..typestate import NoReturn
 from . import c05
@@ -102,9 +102,102 @@ def _is_copy_call(c: ast.Call, live) -> bool:
     return c05._is_copy_of(c, set(live))
 
 
-def _mutators(f, live, r):
-    """Calls in f that receive a live memo (other than copies and the restore call),
-    plus direct stores into a live memo."""
+PURE_BUILTINS = {"dict", "tuple", "list", "len", "zip", "map", "isinstance", "repr", "str", "sorted", "set", "frozenset", "bool", "id",
+                 "enumerate", "iter", "type", "print", "any", "all", "copy.copy", "copy.deepcopy"}
+READ_METHODS = {"copy", "get", "items", "keys", "values", "__contains__", "__getitem__", "__len__"}
+
+
+def param_write_summary(m, h, pname: str, depth: int = 0) -> str:
+    """Does function h write the object(s) it receives in parameter `pname` (a memo dict or a
+    tuple of memo dicts)?  'writes' | 'pure' | 'unknown'."""
+    if depth > 3:
+        return "unknown"
+    derived = {pname}
+    changed = True
+    while changed:
+        changed = False
+        for n in walk_scope(h.node):
+            srcs, tgts = [], []
+            if isinstance(n, ast.Assign):
+                srcs, tgts = [n.value], n.targets
+            elif isinstance(n, (ast.For, ast.comprehension)):
+                srcs, tgts = [n.iter], [n.target]
+            for sv in srcs:
+                base = sv
+                if isinstance(base, ast.Subscript):
+                    base = base.value
+                roots = set()
+                if isinstance(base, ast.Name):
+                    roots.add(base.id)
+                elif isinstance(base, ast.Call) and isinstance(base.func, ast.Name) and base.func.id in ("zip", "enumerate", "reversed", "iter"):
+                    roots |= {a.id for a in base.args if isinstance(a, ast.Name)}
+                if roots & derived:
+                    for t in tgts:
+                        for x in ast.walk(t):
+                            if isinstance(x, ast.Name) and x.id not in derived:
+                                derived.add(x.id)
+                                changed = True
+    verdict = "pure"
+    for n in walk_with_lambdas(h.node):
+        if isinstance(n, ast.Subscript) and isinstance(n.ctx, (ast.Store, ast.Del)) and isinstance(n.value, ast.Name) and n.value.id in derived:
+            return "writes"
+        if isinstance(n, ast.Call):
+            fnc = n.func
+            if isinstance(fnc, ast.Attribute) and isinstance(fnc.value, ast.Name) and fnc.value.id in derived:
+                if fnc.attr in MUTATOR_METHODS:
+                    return "writes"
+                if fnc.attr not in READ_METHODS:
+                    verdict = "unknown"
+                continue
+            passed = [(i, a.id) for i, a in enumerate(n.args) if isinstance(a, ast.Name) and a.id in derived]
+            passed_kw = [(k.arg, k.value.id) for k in n.keywords if isinstance(k.value, ast.Name) and k.value.id in derived]
+            starred = any(isinstance(a, ast.Starred) and isinstance(a.value, ast.Name) and a.value.id in derived for a in n.args)
+            if not passed and not passed_kw and not starred:
+                continue
+            d = dotted_of(fnc)
+            if d in PURE_BUILTINS:
+                continue
+            t = m.resolve_call(h, n)
+            if t.kind == "func" and not starred:
+                callee = t.target
+                ps = list(callee.params)
+                off = 1 if (callee.cls is not None and ps and isinstance(fnc, ast.Attribute) and not _static(callee)) else 0
+                for i, _nm in passed:
+                    if i + off < len(ps):
+                        sub = param_write_summary(m, callee, ps[i + off], depth + 1)
+                        if sub == "writes":
+                            return "writes"
+                        if sub == "unknown":
+                            verdict = "unknown"
+                    else:
+                        verdict = "unknown"
+                for kw, _nm in passed_kw:
+                    if kw in ps:
+                        sub = param_write_summary(m, callee, kw, depth + 1)
+                        if sub == "writes":
+                            return "writes"
+                        if sub == "unknown":
+                            verdict = "unknown"
+                    else:
+                        verdict = "unknown"
+            else:
+                verdict = "unknown"
+    return verdict
+
+
+def _static(fn) -> bool:
+    return any(isinstance(d, ast.Name) and d.id == "staticmethod" for d in fn.decorators)
+
+
+MUTATOR_METHODS = {"append", "insert", "pop", "remove", "clear", "extend", "update", "setdefault", "add", "discard", "popitem",
+                   "__setitem__", "__delitem__"}
+
+
+def _mutators(f, live, r, assumed=None):
+    """Calls in f that receive a live memo (other than copies and the restore call), plus direct
+    stores into a live memo.  A call of an internal helper counts when the helper (transitively)
+    writes what it receives; helpers that provably only read are not mutators; callees whose
+    effect cannot be determined are mutators too but are also appended to `assumed`."""
     out = []
     for n in walk_scope(f.node):
         if isinstance(n, ast.Call):
@@ -119,7 +212,30 @@ def _mutators(f, live, r):
                 k.value.id for k in n.keywords if isinstance(k.value, ast.Name)
             ]
             if any(x in live for x in names):
+                t = r.m.resolve_call(f, n)
+                if dotted_of(n.func) in PURE_BUILTINS:
+                    continue
+                if t.kind == "func":
+                    callee = t.target
+                    ps = list(callee.params)
+                    off = 1 if (callee.cls is not None and ps and isinstance(n.func, ast.Attribute) and not _static(callee)) else 0
+                    verdicts = []
+                    for i, a in enumerate(n.args):
+                        if isinstance(a, ast.Name) and a.id in live:
+                            verdicts.append(param_write_summary(r.m, callee, ps[i + off]) if i + off < len(ps) else "unknown")
+                    for k in n.keywords:
+                        if isinstance(k.value, ast.Name) and k.value.id in live:
+                            verdicts.append(param_write_summary(r.m, callee, k.arg) if k.arg in ps else "unknown")
+                    if "writes" in verdicts:
+                        out.append(n)
+                    elif "unknown" in verdicts:
+                        out.append(n)
+                        if assumed is not None:
+                            assumed.append(n)
+                    continue
                 out.append(n)
+                if assumed is not None:
+                    assumed.append(n)
             elif isinstance(n.func, ast.Attribute) and isinstance(n.func.value, ast.Name) and n.func.value.id in live:
                 if n.func.attr in r.MUTATORS:
                     out.append(n)
@@ -186,16 +302,15 @@ def _verdict_of_return(ret: ast.Return, facts: dict, resvars, convention):
     return "unknown"
 
 
-def check_site(ctx: RuleContext, r, site: Site):
-    m = ctx.model
-    f = site.fn
-    ctx.saw(f)
-    live = [x for x in site.live if x] + ([site.tuple_var] if site.tuple_var else [])
-    muts = _mutators(f, live, r)
-    g = NoReturn(m).cfg(f)
-    st = g.stats()
-    ctx.count("cfg_nodes", st["nodes"])
-    ctx.count("cfg_edges", st["edges"])
+def _rollback_typestate(m, r, f, g, muts, restore_calls):
+    """clean -> dirty (a call that writes the live memos) -> restored (set_shape_memo(<snapshots>)).
+    Returns the findings as (args, kwargs) for ctx.bad, the number of product states, and which
+    CFG nodes mutate."""
+    found = []
+
+    def _found(*a, **kw):
+        found.append((a, kw))
+
     # result variables and their convention
     resvars = {}
     convention = "bool"
@@ -210,8 +325,6 @@ def check_site(ctx: RuleContext, r, site: Site):
             for t in n.targets:
                 if isinstance(t, ast.Name):
                     resvars[t.id] = convention
-    restore_calls = [c for c in f_calls(f) if r.role_of_call(f, c) == "set_shape_memo"]
-    ctx.count("restore_call_sites", len(restore_calls))
 
     # per node classification
     node_mut, node_restore = {}, {}
@@ -268,7 +381,7 @@ def check_site(ctx: RuleContext, r, site: Site):
             if stt[0] == "dirty":
                 ok = False
                 handler = _uncaught_handler_desc(fl, ex, stt)
-                ctx.bad("C04.1", f, handler[0],
+                _found("C04.1", f, handler[0],
                         f"the check can be left by {label} with the bindings made so far still in the "
                         "context: no set_shape_memo(<snapshots>) on this path",
                         path=fl.witness(ex, stt), construct=handler[1])
@@ -283,13 +396,13 @@ def check_site(ctx: RuleContext, r, site: Site):
             verdict = _verdict_of_return(n.ast, dict(facts), resvars, convention)
             if phase == "dirty" and verdict != "accept":
                 ok = False
-                ctx.bad("C04.1", f, n.ast,
+                _found("C04.1", f, n.ast,
                         f"a return that does not accept (verdict on this path: {verdict}) is reached with the "
                         "bindings of the failed check still in place (no restore)",
                         path=fl.witness(n, stt))
             if phase == "restored" and verdict == "accept":
                 ok = False
-                ctx.bad("C04.1", f, n.ast, "an accepting return is reached after the bindings were rolled back: "
+                _found("C04.1", f, n.ast, "an accepting return is reached after the bindings were rolled back: "
                         "a passing check would bind nothing", path=fl.witness(n, stt))
     # fall off the end (implicit `return None`: a rejecting verdict)
     for k, p in g.falloff.pred:
@@ -297,12 +410,42 @@ def check_site(ctx: RuleContext, r, site: Site):
             break
         for stt in fl.states_at(g.falloff):
             if stt[0] == "dirty":
-                ctx.bad("C04.1", f, p.ast if p.ast is not None else f.node,
+                _found("C04.1", f, p.ast if p.ast is not None else f.node,
                         "the function can fall off its end (returning None) with bindings of the check in place")
                 ok = False
-    if ok:
+    return found, fl.steps, node_mut
+
+
+def check_site(ctx: RuleContext, r, site: Site):
+    m = ctx.model
+    f = site.fn
+    ctx.saw(f)
+    live = [x for x in site.live if x] + ([site.tuple_var] if site.tuple_var else [])
+    assumed: list = []
+    muts = _mutators(f, live, r, assumed)
+    definite = [c for c in muts if not any(c is x for x in assumed)]
+    g = NoReturn(m).cfg(f)
+    st = g.stats()
+    ctx.count("cfg_nodes", st["nodes"])
+    ctx.count("cfg_edges", st["edges"])
+    restore_calls = [c for c in f_calls(f) if r.role_of_call(f, c) == "set_shape_memo"]
+    ctx.count("restore_call_sites", len(restore_calls))
+    found, steps, node_mut = _rollback_typestate(m, r, f, g, definite, restore_calls)
+    if assumed:
+        found_all, steps, node_mut_all = _rollback_typestate(m, r, f, g, muts, restore_calls)
+        if len(found_all) > len(found):
+            # the extra paths are dirty only because a callee whose effect on the memos could not be
+            # determined was assumed to write them: no verdict rather than an alarm
+            for args, kw in found:
+                ctx.bad(*args, **kw)
+            raise AnalysisError(f"{f.qualname}: cannot determine whether `{short(assumed[0], 60)}` writes the live memos it receives "
+                                f"({len(found_all) - len(found)} path(s) would violate the rollback rule if it does)")
+        node_mut = node_mut_all
+    for args, kw in found:
+        ctx.bad(*args, **kw)
+    if not found:
         ctx.ok("C04.1", f.qualname,
-               f"rollback typestate holds on {fl.steps} product states: raising exits clean, rejecting returns restored, accepting returns keep bindings")
+               f"rollback typestate holds on {steps} product states: raising exits clean, rejecting returns restored, accepting returns keep bindings")
     # ---- C04.2 snapshots
     dom = g.dominators()
     mut_nodes = [n for n in g.live_nodes() if node_mut[n.id]]
@@ -312,6 +455,10 @@ def check_site(ctx: RuleContext, r, site: Site):
     for rc in restore_calls:
         if len(rc.args) == 1 and isinstance(rc.args[0], ast.Starred) and isinstance(rc.args[0].value, ast.Name) and not rc.keywords:
             _check_starred_snapshot(ctx, m, f, site, rc, rc.args[0].value.id, g, dom, mut_nodes)
+            continue
+        if len(rc.args) == 1 and isinstance(rc.args[0], ast.Name) and not rc.keywords and len(_own_params(r.set)) == 1:
+            # the restore function takes the snapshot tuple as a whole
+            _check_starred_snapshot(ctx, m, f, site, rc, rc.args[0].id, g, dom, mut_nodes)
             continue
         if len(rc.args) != 4 or rc.keywords:
             raise AnalysisError(f"{f.qualname}: set_shape_memo call with unrecognised arguments: {norm(rc)}")
@@ -348,6 +495,13 @@ def check_site(ctx: RuleContext, r, site: Site):
                     ctx.ok("C04.2", f.qualname, f"slot {i}: `{a.id}` is a fresh copy of `{src}` taken before the mutating call")
 
 
+def _own_params(fn) -> list:
+    ps = list(fn.params)
+    if fn.cls is not None and ps and ps[0] in ("self", "cls"):
+        ps = ps[1:]
+    return ps
+
+
 def _copies_each_in_order(e, tv) -> bool:
     """`tuple([x.copy() for x in tv])`, `tuple(x.copy() for x in tv)`, `[dict(x) for x in tv]`, `tuple(map(dict, tv))`"""
     inner = e
@@ -379,7 +533,13 @@ def _helper_copies_each(m, f, call) -> bool:
         if isinstance(n, ast.Assign) and isinstance(n.value, ast.Name) and n.value.id == p and isinstance(n.targets[0], ast.Tuple) and len(n.targets[0].elts) == 4:
             names = [e.id if isinstance(e, ast.Name) else None for e in n.targets[0].elts]
     if isinstance(rv, ast.Tuple) and len(rv.elts) == 4 and all(names):
-        return all(c05._is_copy_of(e, {names[i]}) and _copied_name(e) == names[i] for i, e in enumerate(rv.elts))
+        elts = []
+        for e in rv.elts:
+            if isinstance(e, ast.Name):  # `x_bak = x.copy()` ... `return x_bak, ...`
+                d = c05._assignments_to(h, e.id)
+                e = d[0][1] if len(d) == 1 and d[0][2] is None else e
+            elts.append(e)
+        return all(c05._is_copy_of(e, {names[i]}) and _copied_name(e) == names[i] for i, e in enumerate(elts))
     return False
 
 
